@@ -295,6 +295,94 @@ Section WithData.
     mut_offsets sh (length data) = map cell (positions (sh_height sh) (sh_width sh)).
   Proof. unfold mut_offsets. now rewrite mut_offsets_from_spec by lia. Qed.
 
+  (* ---------- the iterator at index k, and with_position() from there on ---------- *)
+  Lemma iter_at_spec k :
+    iter_at sh data k =
+    match nth_error (positions (sh_height sh) (sh_width sh)) k with
+    | Some p => nth_error data (cell p)
+    | None => None
+    end.
+  Proof. unfold iter_at. rewrite nth_pos_positions. destruct (nth_error _ k) as [[r c]|]; reflexivity. Qed.
+
+  Lemma iter_position_spec k :
+    iter_position sh k = nth k (positions (sh_height sh) (sh_width sh)) (sh_height sh, 0).
+  Proof.
+    unfold iter_position. rewrite nth_pos_positions.
+    destruct (nth_error (positions (sh_height sh) (sh_width sh)) k) as [p|] eqn:E.
+    - symmetry. apply nth_error_nth. exact E.
+    - symmetry. apply nth_overflow. apply nth_error_None. exact E.
+  Qed.
+
+  Lemma mut_at_spec k :
+    mut_at sh (length data) k = option_map cell (nth_error (positions (sh_height sh) (sh_width sh)) k).
+  Proof.
+    unfold mut_at. rewrite nth_pos_positions.
+    destruct (nth_error (positions (sh_height sh) (sh_width sh)) k) as [[r c]|] eqn:E; [|reflexivity].
+    assert (In (r, c) (positions (sh_height sh) (sh_width sh))) as Hin by (eapply nth_error_In; eauto).
+    pose proof (cell_in_bounds _ Hin) as Hb. unfold cell in *. cbn [fst snd option_map] in *.
+    destruct (Nat.leb_spec (length data) (offset sh r c)); [lia|reflexivity].
+  Qed.
+
+  Lemma pos_iter_from_spec : forall fuel i,
+    sh_height sh * sh_width sh < fuel + i ->
+    map (fun e => (fst e, Some (snd e))) (pos_iter_from fuel i sh data) =
+    map (fun p => (p, nth_error data (cell p))) (skipn i (positions (sh_height sh) (sh_width sh))).
+  Proof.
+    induction fuel as [|fuel IH]; intros i Hf.
+    - rewrite skipn_all2 by (rewrite positions_length; lia). reflexivity.
+    - cbn [pos_iter_from]. rewrite iter_at_spec.
+      destruct (nth_error (positions (sh_height sh) (sh_width sh)) i) as [p|] eqn:E.
+      + rewrite (skipn_nth_error _ _ _ E). cbn [map].
+        assert (In p (positions (sh_height sh) (sh_width sh))) as Hin by (eapply nth_error_In; eauto).
+        pose proof (cell_in_bounds _ Hin) as Hb.
+        destruct (nth_error data (cell p)) eqn:E2.
+        * cbn [map fst snd]. rewrite iter_position_spec, (nth_error_nth _ _ _ E). f_equal. apply IH. lia.
+        * apply nth_error_None in E2. lia.
+      + apply nth_error_None in E. now rewrite skipn_all2.
+  Qed.
+
+  Lemma mut_pos_from_spec : forall fuel i,
+    sh_height sh * sh_width sh < fuel + i ->
+    mut_pos_from fuel i sh (length data) =
+    map (fun p => (p, cell p)) (skipn i (positions (sh_height sh) (sh_width sh))).
+  Proof.
+    induction fuel as [|fuel IH]; intros i Hf.
+    - rewrite skipn_all2 by (rewrite positions_length; lia). reflexivity.
+    - cbn [mut_pos_from]. rewrite mut_at_spec.
+      destruct (nth_error (positions (sh_height sh) (sh_width sh)) i) as [p|] eqn:E; cbn [option_map].
+      + rewrite (skipn_nth_error _ _ _ E). cbn [map].
+        rewrite iter_position_spec, (nth_error_nth _ _ _ E). f_equal. apply IH. lia.
+      + apply nth_error_None in E. now rewrite skipn_all2.
+  Qed.
+
+  (* with_position() after k items: exactly the cells k.. of the window, each once, with their positions *)
+  Theorem pos_iter_after_spec k :
+    map (fun e => (fst e, Some (snd e))) (pos_iter_after sh data k) =
+    map (fun p => (p, nth_error data (cell p))) (skipn k (positions (sh_height sh) (sh_width sh))).
+  Proof. unfold pos_iter_after. apply pos_iter_from_spec. lia. Qed.
+
+  Theorem mut_pos_after_spec k :
+    mut_pos_after sh (length data) k =
+    map (fun p => (p, cell p)) (skipn k (positions (sh_height sh) (sh_width sh))).
+  Proof. unfold mut_pos_after. apply mut_pos_from_spec. lia. Qed.
+
+  Theorem iterator_at_index k :
+    let ps := positions (sh_height sh) (sh_width sh) in
+    iter_at sh data k = match nth_error ps k with
+                        | Some p => nth_error data (offset sh (fst p) (snd p))
+                        | None => None
+                        end /\
+    iter_position sh k = nth k ps (sh_height sh, 0) /\
+    mut_at sh (length data) k = option_map (fun p => offset sh (fst p) (snd p)) (nth_error ps k).
+  Proof. split; [apply iter_at_spec|]. split; [apply iter_position_spec|apply mut_at_spec]. Qed.
+
+  Theorem with_position_continues k :
+    let rest := skipn k (positions (sh_height sh) (sh_width sh)) in
+    map (fun e => (fst e, Some (snd e))) (pos_iter_after sh data k) =
+      map (fun p => (p, nth_error data (offset sh (fst p) (snd p)))) rest /\
+    mut_pos_after sh (length data) k = map (fun p => (p, offset sh (fst p) (snd p))) rest.
+  Proof. split; [apply pos_iter_after_spec|apply mut_pos_after_spec]. Qed.
+
   Lemma positions_NoDup h w' : NoDup (positions h w').
   Proof.
     apply NoDup_nth_error. intros i j Hi E. rewrite positions_length in Hi.
